@@ -31,6 +31,12 @@ lit_ok = z3.Function("literal_eval_succeeds", Val, BoolS)
 lit_val = z3.Function("literal_eval_value", Val, Val)
 lit_exc = z3.Function("literal_eval_exception", Val, Cls)
 json_exc = z3.Function("json_exception", Val, Cls)
+# the JSON backend the library is configured with (orjson when installed) as opposed to the statement's decoder (json_value):
+backend_val = z3.Function("backend_json_value", Val, Val)
+many_digits = z3.Function("text_has_a_run_of_19_digits", Val, BoolS)
+backend_is_std = z3.Bool("backend_is_the_standard_decoder")
+std_extra_ok = z3.Function("std_decoder_accepts_non_rfc_text", Val, BoolS)   # NaN / Infinity tokens
+std_extra_val = z3.Function("std_decoder_value_of_non_rfc_text", Val, Val)
 readonly = z3.Function("memoryview_readonly", Val, BoolS)
 
 TEXT_CLASSES = (str, bytes, bytearray, memoryview)
@@ -70,6 +76,10 @@ def dependency_axioms():
                                    (ValueError, TypeError, SyntaxError, MemoryError, RecursionError)]),
           trigger=lit_exc, name="literal_eval-raises-only-these"),
         Q([Val], lambda d: sub(json_exc(d), cls_const(ValueError)), trigger=json_exc, name="json-raises-ValueError"),
+        # the backend accepts exactly RFC 8259 JSON text and agrees with the statement's decoder on its value - except that
+        # orjson reads an integer outside the 64-bit range as a float; such an integer needs a run of at least 19 digits
+        Q([Val], lambda d: z3.Implies(z3.Or(backend_is_std, z3.Not(many_digits(d))), backend_val(d) == json_val(d)),
+          trigger=backend_val, name="backend-agrees-with-the-JSON-decoder-unless-the-text-has-19-digits-in-a-row"),
     ]
 
 
@@ -102,16 +112,43 @@ def install_models(I):
         return _MISSING
     I.builtin_models[B.bytes] = m_bytes
 
-    def loads(I, path, a, k):
+    def backend_loads(I, path, a, k):
+        x = to_val(a[0])
+        t = text(x)
+        if path.branch(json_ok(t)):
+            return SV(backend_val(t))
+        raise PyRaise(json_exc(t), note="json.loads rejected the text")
+
+    def std_loads(I, path, a, k):
+        # the standard library's decoder: the statement's decoder on JSON text; it also accepts a few non-RFC tokens
         x = to_val(a[0])
         t = text(x)
         if path.branch(json_ok(t)):
             return SV(json_val(t))
+        if path.branch(std_extra_ok(t)):
+            return SV(std_extra_val(t))
         raise PyRaise(json_exc(t), note="json.loads rejected the text")
     import json
+    import re as _re
     from typelib.py import compat
-    I.builtin_models[compat.json.loads] = loads
-    I.builtin_models[json.loads] = loads
+    I.builtin_models[compat.json.loads] = backend_loads
+    if compat.json is json:
+        I.builtin_models[json.loads] = backend_loads
+        I.axioms_extra = [backend_is_std]
+    else:
+        I.builtin_models[json.loads] = std_loads
+
+    # re.compile of a constant pattern at module level: the compiled pattern itself (never raises for a valid constant)
+    I.builtin_models[_re.compile] = lambda I, path, a, k: _re.compile(a[0]) if len(a) == 1 and isinstance(a[0], str) and not k else _MISSING
+
+    def pattern_search(I, path, recv, name, args, kw):
+        # <compiled digits pattern>.search(text): only its truth is used
+        if isinstance(recv, _re.Pattern) and name == "search" and len(args) == 1 and recv.pattern in (r"\d{19}", r"[0-9]{19}"):
+            return SBool(many_digits(to_val(args[0])))
+        return _MISSING
+    prev2 = I.hooks.get("method")
+    I.hooks["method"] = lambda I, p, r, n, a, k: (lambda x: x if x is not _MISSING else (prev2(I, p, r, n, a, k) if prev2 else _MISSING))(
+        pattern_search(I, p, r, n, a, k))
 
     def literal_eval(I, path, a, k):
         d = to_val(a[0])
